@@ -25,6 +25,25 @@ pub const BEFORES: &[(&str, &str)] = &[
 
 pub const PREFIXES: &[(&str, &str)] = &[("none", ""), ("ascii", "ab "), ("two-byte", "é "), ("astral", "😀 "), ("tab", "a\tb "), ("emph-nonascii", "*é* ")];
 
+/// thorough only: more ways in which bytes, chars, UTF-16 units and rendered text differ before the link
+pub const PREFIXES_MORE: &[(&str, &str)] = &[
+    ("combining", "e\u{301} "),
+    ("zwj-emoji", "👩\u{200d}👧 "),
+    ("two-astral", "😀😀 "),
+    ("cjk", "漢字 "),
+    ("rtl", "שלום "),
+    ("strong-astral", "**😀** "),
+    ("code-nonascii", "`é` "),
+    ("inline-html", "<b>é</b> "),
+    ("escape", "\\* "),
+    ("entity", "&amp; &#233; "),
+    ("nbsp", "a\u{a0}b "),
+];
+
+fn prefix_text(name: &str) -> &'static str {
+    PREFIXES.iter().chain(PREFIXES_MORE.iter()).find(|x| x.0 == name).unwrap().1
+}
+
 pub const LINKS: &[(&str, &str)] = &[
     ("reg", "[t](2)"),
     ("reg-nonascii-text", "[t é](2)"),
@@ -65,7 +84,7 @@ fn parse(case: &str) -> (String, String, String, String, bool) {
 fn build(case: &str) -> String {
     let (b, p, l, h, after_crlf) = parse(case);
     let before = BEFORES.iter().find(|x| x.0 == b).unwrap().1;
-    let prefix = PREFIXES.iter().find(|x| x.0 == p).unwrap().1;
+    let prefix = prefix_text(&p);
     let link = LINKS.iter().find(|x| x.0 == l).unwrap().1;
     let prefix = if h == "block-ref" || h == "quoted-block-ref" { "" } else { prefix };
     let mut body = host_wrap(&h, &format!("{}{}", prefix, link));
@@ -82,10 +101,10 @@ fn features(case: &str) -> Vec<String> {
     if b.starts_with("crlf") || after_crlf {
         f.push("crlf-before".into());
     }
-    if (p == "two-byte" || p == "astral" || p == "emph-nonascii") && h != "block-ref" && h != "quoted-block-ref" {
+    if !prefix_text(&p).is_ascii() && h != "block-ref" && h != "quoted-block-ref" {
         f.push("non-ascii-before-link-on-line".into());
     }
-    if p == "astral" && h != "block-ref" && h != "quoted-block-ref" {
+    if prefix_text(&p).chars().any(|c| c as u32 > 0xffff) && h != "block-ref" && h != "quoted-block-ref" {
         f.push("astral-before-link-on-line".into());
     }
     if l.starts_with("wiki") {
@@ -160,7 +179,7 @@ impl Engine for C13 {
     fn bound(&self, tier: Tier) -> String {
         match tier {
             Tier::Quick => format!("{} befores x {} prefixes x {} links x {} hosts x {{LF, CRLF}} after", BEFORES.len(), PREFIXES.len(), LINKS.len(), HOSTS.len()),
-            Tier::Thorough => format!("{} befores x {} prefixes x {} links x {} hosts x {{LF, CRLF}} after", BEFORES.len(), PREFIXES.len(), LINKS.len(), HOSTS.len()),
+            Tier::Thorough => format!("{} befores x {} prefixes (also combining marks, ZWJ emoji, CJK, RTL, inline code / HTML, escapes and entities before the link) x {} links x {} hosts x {{LF, CRLF}} after", BEFORES.len(), PREFIXES.len() + PREFIXES_MORE.len(), LINKS.len(), HOSTS.len()),
         }
     }
     fn assumptions(&self) -> Vec<String> {
@@ -170,12 +189,11 @@ impl Engine for C13 {
         ]
     }
     fn enumerate(&self, tier: Tier, emit: &mut dyn FnMut(&str)) {
-        // the whole space takes about a second: both tiers run it
-        let _ = tier;
         let afters: &[&str] = &["lf", "crlf"];
+        let prefixes: Vec<&(&str, &str)> = if tier == Tier::Thorough { PREFIXES.iter().chain(PREFIXES_MORE.iter()).collect() } else { PREFIXES.iter().collect() };
         for a in afters {
             for b in BEFORES {
-                for p in PREFIXES {
+                for p in &prefixes {
                     for l in LINKS {
                         for h in HOSTS {
                             emit(&format!("before={}|prefix={}|link={}|host={}|after={}", b.0, p.0, l.0, h, a));
